@@ -21,7 +21,7 @@ class VaArgProbe(e2.Probe):
         body = "va_list ap; va_start(ap, n%d); " % (len(named) - 1)
         body += " ".join("o%d_%s = va_arg(ap, %s);" % (i, fn, t.name) for i, t in enumerate(var))
         self.csrc += "void %s(%s, ...) { %s va_end(ap); }\n" % (fn, ps, body)
-        self.max_visits = 6
+        self.max_visits = 80      # va_arg of a small struct copies its eightbytes in byte loops (include/stdarg.h __va_arg_struct)
 
     def goals(self, M, finals):
         locs, stack, nsse, hidden = place(self.named + self.var)
@@ -131,16 +131,23 @@ class VaListImageProbe(e2.Probe):
 def variadic_probes(fn, full):
     P = []
     S = c06
-    named_sets = [[INT], [INT, DOUBLE], [PTR, INT], [INT] * 6, [DOUBLE] * 8 + [INT], [INT] * 5 + [DOUBLE] * 7]
+    named_sets = [[INT], [INT, DOUBLE], [PTR, INT], [INT] * 6,
+                  # named parameters that are structs (in registers / in memory), that overflow to the stack, or that are long double:
+                  # va_start must skip exactly the registers and the stack area they take
+                  [S.S_ll, INT], [S.S_lll, INT], [INT] * 8, [LDOUBLE] + [INT] * 6, [S.S_dl], [S.S_dd, DOUBLE], [DOUBLE] * 9,
+                  [DOUBLE] * 8 + [INT], [INT] * 5 + [DOUBLE] * 7]
+    NQ = 11          # named sets used in the quick tier
     seqs = [[INT], [LONG, LONG], [DOUBLE], [DOUBLE, INT, DOUBLE], [LDOUBLE], [INT, LDOUBLE, INT], [PTR, DOUBLE, LONG],
             [INT] * 7, [DOUBLE] * 9, [LONG, DOUBLE] * 4 + [LONG, DOUBLE], [S.S_ii], [S.S_ll], [S.S_d], [S.S_dd], [S.S_ld], [S.S_dl], [S.S_lll],
             [S.S_L], [S.S_fff], [S.S_c3], [INT, S.S_ll, INT], [DOUBLE, S.S_dd, DOUBLE], [S.S_ll, S.S_ll, S.S_ll], [S.S_ld] * 4,
             [LONG] * 5 + [S.S_ll, LONG], [DOUBLE] * 7 + [S.S_dd, DOUBLE], [LDOUBLE, LDOUBLE], [INT, LDOUBLE, S.S_lll, DOUBLE]]
-    for named in (named_sets if full else named_sets[:4]):
+    for ni, named in enumerate(named_sets if full else named_sets[:NQ]):
         nk = c06.sigkey(named)
         P.append(VaListImageProbe("variadic/image/" + nk, fn(), named))
         for seq in seqs:
             if not full and named is not named_sets[0] and len(seq) > 3 and seq[0].kind != "struct":
+                continue
+            if not full and ni >= 4 and not (seq in ([LONG, LONG], [DOUBLE, INT, DOUBLE], [S.S_ll], [S.S_dl], [INT, LDOUBLE, INT], [INT, S.S_ll, INT])):
                 continue
             P.append(VaArgProbe("variadic/va_arg/%s/%s" % (nk, c06.sigkey(seq)), fn(), named, seq))
     # caller side: calling a variadic function
